@@ -502,3 +502,10 @@ Theorem c15_gen_iso_row_owned : forall r, In r (filter is_iso_region regions) ->
   forall i x, Ad (r_shared r) i x -> fst (snd x) = Z.of_nat i.
 Proof. exact Par_Region_Gen.gen_iso_row_owned. Qed.
 Print Assumptions c15_gen_iso_row_owned.
+
+(* the while loop of the Dijkstra body ends only on an empty heap: on a normal exit the private heap is already
+   canonical before heap.clear() runs (C04's loop, both heap variants) *)
+Theorem c15_iso_loop_exit_heap_empty : forall fl nbrs w pick K fuel ds ds',
+  loop (step_fl fl nbrs w pick K) fuel ds = DOk ds' -> d_heap ds' = [].
+Proof. exact Par_Iso_Proof.loop_exit_heap_empty. Qed.
+Print Assumptions c15_iso_loop_exit_heap_empty.
